@@ -69,3 +69,46 @@ def inlined_view(prog: Program, f: FuncInfo, depth: int = 2) -> FuncInfo:
     root = Inl(depth).visit(root)
     ast.fix_missing_locations(root)
     return dataclasses.replace(f, node=root)
+
+
+def alias_view(f: FuncInfo) -> FuncInfo:
+    """A view of f in which names that are bound once to a *selector* (`function = d['function']`, `rhs = rule.rhs`) are replaced
+    by the selector wherever they are read -- rules that read `d['function'] == 'constant'` do not care whether the selection
+    was named first."""
+    from .util import single_assignments
+    root = copy.deepcopy(f.node)
+    temps = single_assignments(root)
+
+    def selector(e: ast.AST) -> bool:
+        if isinstance(e, ast.Name):
+            return True
+        if isinstance(e, ast.Attribute):
+            return selector(e.value)
+        if isinstance(e, ast.Subscript):
+            return selector(e.value) and isinstance(e.slice, ast.Constant)
+        return False
+    alias = {k: v for k, v in temps.items() if selector(v) and not isinstance(v, ast.Name)}
+    # the selected-from names must not be rebound in the function
+    stores: Dict[str, int] = {}
+    for n in own_nodes(root):
+        if isinstance(n, ast.Name) and isinstance(n.ctx, (ast.Store, ast.Del)):
+            stores[n.id] = stores.get(n.id, 0) + 1
+    loop_targets = {t.id for n in own_nodes(root) if isinstance(n, (ast.For, ast.comprehension)) for t in ast.walk(n.target) if isinstance(t, ast.Name)}
+    ok_alias = {}
+    for k, v in alias.items():
+        base = [n.id for n in ast.walk(v) if isinstance(n, ast.Name)]
+        # a base may be the target of for-loops (rebound at the top of each iteration, before the alias is taken)
+        n_loop = {b: sum(1 for n in own_nodes(root) if isinstance(n, ast.For) for t in ast.walk(n.target) if isinstance(t, ast.Name) and t.id == b) for b in base}
+        if all(stores.get(b, 0) <= 1 or stores.get(b, 0) == n_loop[b] for b in base):
+            ok_alias[k] = v
+    if not ok_alias:
+        return f
+
+    class Sub(ast.NodeTransformer):
+        def visit_Name(self, n):
+            if isinstance(n.ctx, ast.Load) and n.id in ok_alias:
+                return ast.copy_location(copy.deepcopy(ok_alias[n.id]), n)
+            return n
+    root = Sub().visit(root)
+    ast.fix_missing_locations(root)
+    return dataclasses.replace(f, node=root)
